@@ -165,3 +165,139 @@ def guard_ok(m):
 
 def oracle_members(spec_type, features):
     return [m for m in spec_type["members"] if "feature" not in m or m["feature"] in features]
+
+
+def reemitted_entry(F):
+    """(ok, type literal, detail): From<KnownPublicKeyCredentialParameters> for PublicKeyCredentialParameters returns
+    {alg: <the same alg>, key_type: String::from(<literal>)} on its only path (helpers expanded, named constants evaluated)"""
+    from . import sym as S
+    conv = F.trait_impl_fn("<webauthn::PublicKeyCredentialParameters as core::convert::From<webauthn::KnownPublicKeyCredentialParameters>>", "from")
+    if conv is None:
+        return False, None, "anchor missing: From<Known..> for PublicKeyCredentialParameters"
+    names = [n for p in conv["params"] for n, _ in __import__("rules.hirq", fromlist=["x"]).pat_bindings(p)]
+    try:
+        paths = S.Sym(F, conv, is_effect=lambda callee, args, node, st: False).run()
+    except S.TooManyPaths:
+        return False, None, "too many paths"
+    if len(paths) != 1 or paths[0].atoms or paths[0].done != ("ret", 0):
+        return False, None, "%d paths" % len(paths)
+    r = paths[0].result
+    if not (r and r[0] == "struct" and r[1] == "webauthn::PublicKeyCredentialParameters"):
+        return False, None, "returns %s" % S.show(r)[:80]
+    f = dict(r[2])
+    kt = f.get("key_type")
+    lit = None
+    if kt and kt[0] == "call" and "heapless::string::String<" in kt[1] and "From<&" in kt[1] and len(kt[2]) == 1 and kt[2][0][0] == "lit" and isinstance(kt[2][0][1], str):
+        lit = kt[2][0][1]
+    ok = f.get("alg") == ("field", ("param", names[0]), "alg") and lit is not None and set(f) == {"alg", "key_type"}
+    return ok, lit, S.show(r)[:120]
+
+
+def seq_emitter(F, fn):
+    """summary of a hand-written sequence Serialize impl, from its path summaries:
+         loop form:    H = s.serialize_seq(Some(C.len()))?; for e in C { H.serialize_element(V(e))? } H.end()
+         collect form: s.collect_seq(C.iter().map(|e| V(e)))   (serde's provided method: header from the exact size hint of the
+                       slice iterator, one element per item, end -- not overridden by cbor-smol)
+       returns dict(ok, why, form, collection, elem (the per-item value term over the probe ('unk', -1, 'elem')), elem_ty)"""
+    from . import sym as S
+    from . import hirq as H
+    SER_SEQ = "serde_core::ser::Serializer::serialize_seq"
+    ELEM = "serde_core::ser::SerializeSeq::serialize_element"
+    END = "serde_core::ser::SerializeSeq::end"
+    COLLECT = "serde_core::ser::Serializer::collect_seq"
+    NEXT = "core::iter::traits::iterator::Iterator::next"
+    probe = ("unk", -1, "elem")
+
+    def is_effect(callee, args, node, st):
+        tc = node.get("callee") if isinstance(node, dict) else None
+        return (tc or "").startswith("serde_core::ser::") or tc == NEXT
+
+    sym = S.Sym(F, fn, is_effect=is_effect)
+    try:
+        paths = sym.run()
+    except S.TooManyPaths:
+        return {"ok": False, "why": "too many paths"}
+    ser = ("param", [n for p in fn["params"] for n, _ in H.pat_bindings(p)][-1])
+
+    def strip_views(t):
+        while t[0] == "call" and len(t[2]) == 1 and t[1].split("::")[-1] in ("as_slice", "as_ref", "deref", "iter", "into_iter", "copied", "cloned", "by_ref"):
+            t = t[2][0]
+        return t
+
+    effs = [e for p in paths for e in p.effects]
+    if any(e.tcallee == COLLECT for e in effs):
+        if len(paths) != 1 or len([e for e in paths[0].effects if e.tcallee.startswith("serde_core::ser::")]) != 1:
+            return {"ok": False, "why": "collect_seq is not the only serializer call"}
+        e = [x for x in paths[0].effects if x.tcallee == COLLECT][0]
+        if e.args[0] != ser or paths[0].result != e.term:
+            return {"ok": False, "why": "collect_seq is not called on the serializer / its result is not returned"}
+        it = e.args[1]
+        elem = probe
+        if it[0] == "call" and it[1].endswith("Iterator::map") and len(it[2]) == 2 and it[2][1][0] == "closure":
+            v = sym.apply_closure(it[2][1], [probe])
+            if v is None:
+                return {"ok": False, "why": "the mapping closure is not a plain expression"}
+            elem = v
+            it = it[2][0]
+        elif it[0] == "call" and "Iterator::" in it[1] and it[1].split("::")[-1] not in ("iter", "into_iter", "copied", "cloned"):
+            return {"ok": False, "why": "the iterator adaptor %s may change the number of items" % it[1].split("::")[-1]}
+        return {"ok": True, "why": "", "form": "collect", "collection": strip_views(it), "elem": elem, "sym": sym}
+    hdrs = {e.term: e for e in effs if e.tcallee == SER_SEQ}
+    if len(hdrs) != 1:
+        return {"ok": False, "why": "expected exactly one serialize_seq"}
+    Hh = next(iter(hdrs.values()))
+    n = Hh.args[1] if len(Hh.args) == 2 else None
+    if not (Hh.args[0] == ser and n and n[0] == "ctor" and n[1] == S.SOME):
+        return {"ok": False, "why": "sequence of indefinite length / not opened on the serializer"}
+    ln = n[2][0]
+    if not (ln[0] == "call" and ln[1].split("::")[-1] == "len" and len(ln[2]) == 1):
+        return {"ok": False, "why": "announced length is %s, not <collection>.len()" % S.show(ln)[:60]}
+    coll = strip_views(ln[2][0])
+    Sq = sym.proj(Hh.term, S.OK, 0)
+    elem_terms = set()
+    for p in paths:
+        if p.done and p.done[0] == "panic" or p.done == "diverge":
+            return {"ok": False, "why": "can panic"}
+        hk = sym.lookup(p, Hh.term)
+        r = p.result
+        if hk == S.ERR:
+            continue
+        nexts = [e for e in p.effects if e.tcallee == NEXT]
+        elems = [e for e in p.effects if e.tcallee == ELEM]
+        ends = [e for e in p.effects if e.tcallee == END]
+        other = [e for e in p.effects if e.tcallee.startswith("serde_core::ser::") and e.tcallee not in (SER_SEQ, ELEM, END)]
+        if other:
+            return {"ok": False, "why": "other serializer calls: %s" % other[0].tcallee}
+        if p.loops != 1 or len(nexts) != 1 or strip_views(nexts[0].args[0]) != coll:
+            return {"ok": False, "why": "the loop iterates %s but the header announces %s.len()" % (S.show(strip_views(nexts[0].args[0]))[:40] if nexts else "nothing", S.show(coll)[:40])}
+        nk = sym.lookup(p, nexts[0].term)
+        failed = [e for e in elems if sym.lookup(p, e.term) == S.ERR]
+        if failed:
+            continue    # the whole serialisation fails
+        if p.ret_loop_depth > 0:
+            return {"ok": False, "why": "the loop can stop before all announced elements are emitted (return)"}
+        if nk == S.NONE:
+            if elems:
+                return {"ok": False, "why": "an element is emitted although the iterator is exhausted"}
+        elif nk == S.SOME:
+            if any(t[0] == "break" for t in p.trace):
+                return {"ok": False, "why": "the loop can stop before all announced elements are emitted (break)"}
+            if len(elems) != 1 or elems[0].args[0] != Sq:
+                return {"ok": False, "why": "an iteration emits %d elements on some path (e.g. a `continue` / conditional emission) while the header announces one per entry" % len(elems)}
+            item = sym.proj(nexts[0].term, S.SOME, 0)
+            elem_terms.add(_subst(elems[0].args[1], item, probe))
+        else:
+            return {"ok": False, "why": "iterator outcome unknown on a path"}
+        if len(ends) != 1 or ends[0].args != (Sq,) or S.root_of(r)[0] != ends[0].term and r != ends[0].term:
+            return {"ok": False, "why": "the sequence is not ended exactly once and returned"}
+    if len(elem_terms) != 1:
+        return {"ok": False, "why": "%d different element expressions" % len(elem_terms)}
+    return {"ok": True, "why": "", "form": "loop", "collection": coll, "elem": next(iter(elem_terms)), "sym": sym}
+
+
+def _subst(t, old, new):
+    if t == old:
+        return new
+    if not isinstance(t, tuple):
+        return t
+    return tuple(_subst(x, old, new) if isinstance(x, tuple) else x for x in t)
